@@ -805,6 +805,9 @@ pub fn client_conn(env: &CellEnv, conn: &ConnPlan) -> Vec<XferOutcome> {
             // PING ACK) always ahead of the DATA still waiting in the staging queue
             if pump.pending_out() == 0 {
                 if !eng.ctrl.is_empty() {
+                    if let Some(t) = &eng.trace {
+                        eprintln!("[{t}] -> control frames {} at stream offset {} t={:?}", hex::encode(&eng.ctrl[..eng.ctrl.len().min(40)]), enq, start.elapsed());
+                    }
                     enq += eng.ctrl.len() as u64;
                     pump.out.append(&mut eng.ctrl);
                 } else if let Some((unit, fin, _, _)) = staged.pop_front() {
